@@ -666,8 +666,21 @@ tc_bump(int32 nt, void *p, long i)
         case DFNT_UINT16: ((uint16 *)p)[i] ^= 0x0100; break;
         case DFNT_INT32:
         case DFNT_UINT32: ((uint32 *)p)[i] ^= 0x00010000u; break;
-        case DFNT_FLOAT32: ((float32 *)p)[i] += 1.0f; break;
-        case DFNT_FLOAT64: ((float64 *)p)[i] += 1.0; break;
+        /* a difference below 1: a comparison that truncates to an integer would not see it */
+        case DFNT_FLOAT32: {
+            float32 o = ((float32 *)p)[i];
+            ((float32 *)p)[i] = o + 0.25f;
+            if (((float32 *)p)[i] == o)
+                ((float32 *)p)[i] = o * 2 + 1;
+            break;
+        }
+        case DFNT_FLOAT64: {
+            float64 o = ((float64 *)p)[i];
+            ((float64 *)p)[i] = o + 0.25;
+            if (((float64 *)p)[i] == o)
+                ((float64 *)p)[i] = o * 2 + 1;
+            break;
+        }
     }
 }
 static long
